@@ -23,7 +23,7 @@ RULE = (
     "parametrised alias, generic Box[X]); per term 2-3 conforming values and every one-position "
     "break (leaf replaced by a foreign atom, element added/dropped, key replaced), passed as "
     "argument and as class default; plus generic hosts (Sequence[T], Mapping[str,T], tuple[T,...] "
-    "with T bound to every leaf, also next to parametrised aliases bound explicitly) and a two-parameter generic referenced through type variables; "
+    "with T bound to every leaf, also next to parametrised aliases bound explicitly), by-name (string) annotations next to an unrelated same-named class, and a two-parameter generic referenced through type variables; "
     "non-trivial = the term has a constructor (depth >= 2) and at least one accepted and one "
     "rejected value were exercised"
 )
@@ -52,6 +52,8 @@ def programs(tier: str):  # noqa: C901
         return False
 
     yield {"special": "pair-typevars"}
+    for when in ("before", "after"):
+        yield {"special": "forward-refs", "other_defined": when}
     for leaf in ak.LEAF_NAMES:
         yield {"host": leaf}
     for t in ak.terms(2, ak.LEAF_NAMES):
@@ -94,6 +96,20 @@ def explore_config(tier: str, program) -> dict:
 
 
 _n = [0]
+
+
+class FwdItem(State):
+    """module-level state referred to BY NAME (string annotations) from classes of this module"""
+
+    value: int
+
+
+def _other_fwd_item() -> type[State]:
+    # an unrelated state that happens to carry the same class name, defined elsewhere afterwards
+    class FwdItem(State):  # noqa: F811
+        name: str
+
+    return FwdItem
 
 
 def make_class(attrs: dict, defaults: dict | None = None, bases=(State,)):
@@ -151,6 +167,40 @@ def execute(program, ch: Chooser) -> Result:  # noqa: C901, PLR0912, PLR0915
     viols: list[dict] = []
     stats = {ak.Y: 0, ak.N: 0, ak.U: 0, "accepted": 0, "rejected": 0}
     steps = 0
+    if program.get("special") == "forward-refs":
+        # annotations given as strings resolve in the namespace of the class' own module,
+        # whatever same-named classes were defined elsewhere before
+        other = _other_fwd_item() if program["other_defined"] == "before" else None
+        try:
+            holder = make_class({"item": "FwdItem", "items": "cabc.Sequence[FwdItem]", "maybe": "FwdItem | None"}, {"maybe": None})
+        except Exception as exc:  # noqa: BLE001
+            viols.append(viol("declaration", "forward-refs", "declares", f"{type(exc).__name__}: {exc}"[:160]))
+            return Result("special/fwd-decl-fails", True, viols, program, steps=1)
+        if other is None:
+            other = _other_fwd_item()
+        good = FwdItem(value=1)
+        for how, kw, ok_expected in (
+            ("own-item", {"item": good, "items": [FwdItem(value=2)]}, True),
+            ("own-maybe", {"item": good, "items": [], "maybe": FwdItem(value=3)}, True),
+            ("foreign-item", {"item": other(name="x"), "items": []}, False),
+            ("foreign-in-items", {"item": good, "items": [other(name="x")]}, False),
+            ("foreign-maybe", {"item": good, "items": [], "maybe": other(name="x")}, False),
+        ):
+            steps += 1
+            try:
+                inst = holder(**kw)
+                ok = True
+            except Exception:  # noqa: BLE001
+                ok = False
+            if ok and not ok_expected:
+                viols.append(viol("rejects-nonconforming", f"forward-ref/{how}/same-named-class-defined-{program['other_defined']}", "raises", "accepted an instance of an unrelated same-named state"))
+                stats["accepted"] += 1
+            elif not ok and ok_expected:
+                viols.append(viol("accepts-conforming", f"forward-ref/{how}/same-named-class-defined-{program['other_defined']}", "succeeds", "rejected the module's own state"))
+            elif ok and (inst.item is not kw["item"]):
+                viols.append(viol("faithful", f"forward-ref/{how}", "same instance", "other"))
+            stats["accepted" if ok else "rejected"] += 1
+        return Result(f"special/forward-refs/{program['other_defined']}", True, viols, program, steps=steps)
     if "special" in program:
         # two-parameter generic referenced through type variables of the enclosing generic
         try:
